@@ -3,6 +3,7 @@ package main
 import (
 	"go/constant"
 	"go/token"
+	"sort"
 
 	"golang.org/x/tools/go/ssa"
 )
@@ -14,9 +15,14 @@ type Lit struct {
 }
 
 // Facts holds, per block, the set of literals true on EVERY path from the entry to the start of the block.
+// in: local facts; nd: local + facts derived from constrained helper results; deep: nd + facts common to the
+// call sites of the block's function in Tree(fn) (see deep.go).
 type Facts struct {
-	fn *ssa.Function
-	in map[*ssa.BasicBlock]map[Lit]bool
+	fn   *ssa.Function
+	w    *World
+	in   map[*ssa.BasicBlock]map[Lit]bool
+	nd   map[*ssa.BasicBlock]map[Lit]bool
+	deep map[*ssa.BasicBlock]map[Lit]bool
 }
 
 func edgeLits(from *ssa.BasicBlock, succIdx int) []Lit {
@@ -44,7 +50,7 @@ func edgeLits(from *ssa.BasicBlock, succIdx int) []Lit {
 }
 
 func computeFacts(fn *ssa.Function) *Facts {
-	f := &Facts{fn: fn, in: map[*ssa.BasicBlock]map[Lit]bool{}}
+	f := &Facts{fn: fn, in: map[*ssa.BasicBlock]map[Lit]bool{}, nd: map[*ssa.BasicBlock]map[Lit]bool{}, deep: map[*ssa.BasicBlock]map[Lit]bool{}}
 	if len(fn.Blocks) == 0 {
 		return f
 	}
@@ -107,16 +113,90 @@ func computeFacts(fn *ssa.Function) *Facts {
 }
 
 // At returns the literals that hold at the start of block b (nil for unreachable blocks).
-func (f *Facts) At(b *ssa.BasicBlock) map[Lit]bool { return f.in[b] }
+// The block may belong to fn or to a function of Tree(fn); see deep.go for what is added to the local facts.
+func (f *Facts) At(b *ssa.BasicBlock) map[Lit]bool {
+	if b == nil {
+		return nil
+	}
+	if f.w == nil {
+		return f.in[b]
+	}
+	if d, ok := f.deep[b]; ok {
+		return d
+	}
+	base := f.w.noUp(b)
+	if base == nil {
+		f.deep[b] = nil
+		return nil
+	}
+	out := copyFacts(base)
+	f.deep[b] = out // recursion guard
+	if up := f.upFacts(b.Parent()); len(up) > 0 {
+		n := len(out)
+		for l := range up {
+			out[l] = true
+		}
+		if len(out) != n {
+			f.w.closeDown(out)
+		}
+	}
+	return out
+}
+
+// Primary returns the branch literals themselves (of b's function and, inside a helper, those common to its call
+// sites), without the literals derived from the outcome of helper calls. Rules of the form "nothing else gates
+// this statement" use it: a consequence of an admitted condition is not an additional condition.
+func (f *Facts) Primary(b *ssa.BasicBlock) map[Lit]bool {
+	if b == nil || f.w == nil {
+		return f.in[b]
+	}
+	local, ok := f.w.factsOf(b.Parent()).in[b]
+	if !ok {
+		return nil
+	}
+	out := copyFacts(local)
+	g := b.Parent()
+	if g != f.fn && g.Parent() == nil && !f.w.dynCallable(g) {
+		var acc map[Lit]bool
+		for i, s := range f.w.sitesIn(f.fn, g) {
+			if s.Parent() == g {
+				continue
+			}
+			cur := f.Primary(s.Block())
+			if i == 0 || acc == nil {
+				acc = copyFacts(cur)
+			} else {
+				for k := range acc {
+					if !cur[k] {
+						delete(acc, k)
+					}
+				}
+			}
+		}
+		for k := range acc {
+			out[k] = true
+		}
+	}
+	return out
+}
+
+// Local returns the literals established by fn's own branches only.
+func (f *Facts) Local(b *ssa.BasicBlock) map[Lit]bool { return f.in[b] }
 
 // Holds reports whether literal (v==pol) holds on every path to b.
 func (f *Facts) Holds(b *ssa.BasicBlock, v ssa.Value, pol bool) bool {
-	return f.in[b][Lit{v, pol}]
+	return f.At(b)[Lit{v, pol}]
 }
 
 // Any reports whether some literal at b satisfies pred.
 func (f *Facts) Any(b *ssa.BasicBlock, pred func(Lit) bool) bool {
-	for l := range f.in[b] {
+	at := f.At(b)
+	lits := make([]Lit, 0, len(at))
+	for l := range at {
+		lits = append(lits, l)
+	}
+	sort.Slice(lits, func(i, j int) bool { return litLess(lits[i], lits[j]) })
+	for _, l := range lits {
 		if pred(l) {
 			return true
 		}
@@ -125,7 +205,14 @@ func (f *Facts) Any(b *ssa.BasicBlock, pred func(Lit) bool) bool {
 }
 
 // Reachable tells whether block b is reachable from the entry (or is the recover block).
-func (f *Facts) Reachable(b *ssa.BasicBlock) bool { _, ok := f.in[b]; return ok }
+func (f *Facts) Reachable(b *ssa.BasicBlock) bool {
+	if b.Parent() != f.fn && f.w != nil {
+		_, ok := f.w.factsOf(b.Parent()).in[b]
+		return ok
+	}
+	_, ok := f.in[b]
+	return ok
+}
 
 // ---- literal interpretation helpers ----
 
@@ -160,10 +247,23 @@ func nilTest(l Lit) (x ssa.Value, isNil bool, ok bool) {
 // KnownNil tells whether x (after stripping conversions) is known nil / non-nil at block b.
 // It returns (isNil, known).
 func (f *Facts) KnownNil(b *ssa.BasicBlock, x ssa.Value) (bool, bool) {
+	return f.knownNilIn(f.At(b), x)
+}
+
+func (f *Facts) knownNilIn(facts map[Lit]bool, x ssa.Value) (bool, bool) {
 	x = throughCell(strip(x))
-	for l := range f.in[b] {
-		if y, isNil, ok := nilTest(l); ok && throughCell(strip(y)) == x {
-			return isNil, true
+	if f.w != nil {
+		x = f.w.resolveUp(f.fn, x)
+	}
+	for l := range facts {
+		if y, isNil, ok := nilTest(l); ok {
+			y = throughCell(strip(y))
+			if f.w != nil {
+				y = f.w.resolveUp(f.fn, y)
+			}
+			if y == x {
+				return isNil, true
+			}
 		}
 	}
 	return false, false
@@ -195,7 +295,7 @@ func throughCell(v ssa.Value) ssa.Value {
 
 // boolTest: is the boolean value x known at b?
 func (f *Facts) KnownBool(b *ssa.BasicBlock, x ssa.Value) (bool, bool) {
-	for l := range f.in[b] {
+	for l := range f.At(b) {
 		if l.V == x {
 			return l.Pol, true
 		}
